@@ -439,6 +439,31 @@ Section Tensor.
     end.
 End Tensor.
 
+(* Histories in which the WORLD changes between calls: the file system is replaced (an entry becomes a symlink
+   or a hard link, a directory is swapped for a symlinked one, ...) or the process changes directory.  Every
+   entry point runs its check and its open against the world in force at that call. *)
+Inductive wop := TOp (o : op) | World (fs : node) (cwd : rpath).
+
+Fixpoint wrun (kf pf : nat) (ops : list wop) (fs : node) (cwd : rpath) (t : tstate)
+  : option (list (node * rpath * str * list event * res (list N))) :=
+  match ops with
+  | [] => Some []
+  | World fs' cwd' :: r =>
+      match wrun kf pf r fs' cwd' t with
+      | Some l => Some ((fs', cwd', t_base t, [], Ok []) :: l)
+      | None => None
+      end
+  | TOp o :: r =>
+      match step kf fs cwd pf o t with
+      | None => None
+      | Some (t', ev, res) =>
+          match wrun kf pf r fs cwd t' with
+          | Some l => Some ((fs, cwd, t_base t, ev, res) :: l)
+          | None => None
+          end
+      end
+  end.
+
 Definition fresh (base loc : str) (n : N) (off len : option N) : tstate :=
   mkT base loc n off len true None None.
 
